@@ -105,7 +105,7 @@ def structured(r, spi_i, spi_r, exch=None, flags=None, mid=None):
 
 def nested(r, spi_i, spi_r, exch, flags, mid):
     """SA / TS / DELETE payloads whose *inner* length and count fields are damaged."""
-    kind = r.choice(['sa', 'ts', 'delete', 'notify', 'transform'])
+    kind = r.choice(['sa', 'ts', 'delete', 'notify', 'transform', 'attribute', 'attribute'])
     if kind == 'sa':
         inner = bytearray(R.enc_sa([{'num': 1, 'proto': 1, 'spi': b'', 'transforms': [
             {'type': 1, 'id': 12, 'keylen': 128}, {'type': 2, 'id': 5}, {'type': 3, 'id': 12}, {'type': 4, 'id': 19}]}]))
@@ -119,6 +119,24 @@ def nested(r, spi_i, spi_r, exch, flags, mid):
             {'type': 1, 'id': 12, 'attrs': [(14, 256), (14, 128), (3, b'xyz')]}, {'type': 3, 'id': 12}, {'type': 5, 'id': 0}]}]))
         pos = r.randrange(8, len(inner))
         inner[pos] = r.choice([0, 1, 3, 4, 255])
+        t = R.P_SA
+    elif kind == 'attribute':
+        # transform attributes in TV (AF set) and TLV (AF clear) form with every interesting length
+        def attr():
+            af = r.random() < 0.5
+            at = r.choice([14, 14, 1, 3, 0, 0x7FFF])
+            ln = r.choice([0, 1, 2, 3, 4, 5, 8, 0xFFFF, 128, 256])
+            if af:
+                return struct.pack('>HH', at | 0x8000, ln)
+            body = _rand_bytes(r, r.choice([0, ln if ln < 64 else 4, max(0, (ln if ln < 64 else 4) - 1), 4]))
+            return struct.pack('>HH', at, ln) + body
+        trs = b''
+        n_tr = r.randint(1, 3)
+        for i in range(n_tr):
+            t = struct.pack('>BBH', r.choice([1, 2, 3, 4]), 0, r.choice([12, 5, 14, 19])) + b''.join(attr() for _ in range(r.randint(1, 3)))
+            trs += struct.pack('>BBH', 0 if i == n_tr - 1 else 3, 0, len(t) + 4) + t
+        prop = struct.pack('>BBBB', 1, r.choice([1, 3]), 0, n_tr) + trs
+        inner = bytearray(struct.pack('>BBH', 0, 0, len(prop) + 4) + prop)
         t = R.P_SA
     elif kind == 'ts':
         inner = bytearray(R.enc_ts([{'ts_type': 7, 'proto': 6, 'sport': 0, 'eport': 65535, 'saddr': b'\x0a\0\0\1', 'eaddr': b'\x0a\0\0\xff'}]))
